@@ -109,6 +109,12 @@ def run_frag(case):
             R.rx_waiters.append(lambda: R.rxf.clear())
         net.sim.advance(2 * MS)
         L = net.L
+        for op in case.get("pre", ()):
+            # configuration history of the sender before the message is written
+            if op[0] == "frag":
+                net.ctl[src].node.fragmentation = op[1]
+            elif op[0] == "maxlen":
+                net.ctl[src].node.max_message_length = op[1]
         h = L.Header(dst, typ)
         h.frame_id = fid
         frame = L.Frame(h, bytes(msg) if case["bytes"] else bytearray(msg))
@@ -116,6 +122,8 @@ def run_frag(case):
             out["ret"] = net.ctl[src].node.write(frame) if case["via_write"] else net.ctl[src].node.send(h, frame.message)
         except SimHorizon:
             out["ret"] = "horizon"
+        except ValueError:
+            out["ret"] = "ValueError"
         out["type_after"] = h.message_type
         out["hdr_after"] = (h.from_node, h.to_node, h.frame_id, h.reserved)
         net.settle(500)
@@ -130,6 +138,28 @@ def run_frag(case):
     want = rfrag.fragment(src, dst, fid, typ, msg)
     if len(msg) > 24:
         res.nontrivial = True
+    # documented: fragmentation is on by default with max_message_length 144; changing `fragmentation` sets the limit
+    # to 144 (on) / 24 (off).  C11 speaks about what a node with fragmentation emits, so a message is judged when
+    # fragmentation is on and the message fits the limit in effect; what happens otherwise (ValueError, or a message
+    # cut to 24 bytes when fragmentation is off) is outside the statement and only labelled
+    frag_on, maxlen = True, 144
+    for op in case.get("pre", ()):
+        if op[0] == "frag":
+            if op[1] != frag_on:
+                frag_on, maxlen = op[1], 144 if op[1] else 24
+        else:
+            maxlen = op[1]
+    if case.get("pre"):
+        res.label("config-history")
+    if len(msg) > maxlen or (len(msg) > 24 and not frag_on):
+        res.label("outside-limit-not-judged")
+        if any(len(g) > 32 for g in got):
+            res.fail("C11/packet-longer-than-32", "on-air packet of %d bytes" % max(len(g) for g in got))
+        return res
+    if out.get("ret") == "ValueError":
+        res.fail("C11/refused-within-limit", "%d-byte message after %r refused (limit in effect %d, fragmentation %s)"
+                 % (len(msg), case.get("pre"), maxlen, "on" if frag_on else "off"))
+        return res
     if out.get("ret") is not True:
         if not line:
             res.fail("C11/write-failed", "write() to a direct neighbour returned %r on a loss-free link" % (out.get("ret"),))
@@ -207,11 +237,27 @@ def _frag_cases(line, per_len):
     return gen
 
 
+def _history_cases(depth):
+    """every history of up to `depth` calls over {fragmentation on/off, max_message_length 72/144} x boundary lengths"""
+    def gen():
+        import itertools
+        ops = [["frag", False], ["frag", True], ["maxlen", 72], ["maxlen", 144]]
+        for d in range(1, depth + 1):
+            for w in itertools.product(ops, repeat=d):
+                for i, n in enumerate((0, 24, 25, 48, 49, 72, 73, 120, 121, 144)):
+                    src, dst, nodes = [(0o1, 0, [0, 0o1]), (0, 0o4, [0, 0o4])][(i + d) % 2]
+                    yield {"kind": "direct", "msg": bytes((7 * j + n) & 0xFF for j in range(n)).hex(), "type": 65, "id": 300 + n,
+                           "src": src, "dst": dst, "nodes": nodes, "bytes": True, "via_write": bool(i % 2), "pre": [list(o) for o in w]}
+    return gen
+
+
 def parts(tier):
     if tier == "quick":
         return [Part("headers", "gen", _hdr_strategy, n=3000),
+                Part("fragments-after-config-history-depth3", "enum", _history_cases(3), exhaustive=True),
                 Part("fragments-direct-all-lengths", "enum", _frag_cases(False, 2), exhaustive=True),
                 Part("fragments-line-all-lengths", "enum", _frag_cases(True, 1), exhaustive=True)]
     return [Part("headers", "gen", _hdr_strategy, n=200000),
+            Part("fragments-after-config-history-depth5", "enum", _history_cases(5), exhaustive=True),
             Part("fragments-direct-all-lengths", "enum", _frag_cases(False, 40), exhaustive=True),
             Part("fragments-line-all-lengths", "enum", _frag_cases(True, 12), exhaustive=True)]
